@@ -187,6 +187,23 @@ type TwinsB struct {
 	Work EmbD0 `gorm:"embedded;embeddedPrefix:work_"`
 }
 
+// ShadowDoc embeds ShadowBase ANONYMOUSLY and re-declares Name after it: both
+// Name fields map to the same column, the outer (shorter path) one owns it;
+// ShadowBase.Name is hidden and never stored.
+type ShadowBase struct {
+	Name string
+	Note string // (field names must not collide with key fields: map keys may be field names)
+}
+type ShadowDoc struct {
+	ShadowBase
+	Name string
+}
+
+func shadowCell(v interface{}) []interface{} {
+	d := v.(ShadowDoc)
+	return []interface{}{d.Name, d.Note}
+}
+
 // twinCell: home_ea0, home_eb0, work_ea0, work_eb0 of any Twins* value.
 func twinCell(v interface{}) []interface{} {
 	rv := reflect.ValueOf(v)
@@ -208,6 +225,13 @@ type KeyConf struct {
 	Fields  []reflect.StructField
 	Cols    []string // db column names of the key, in field order
 	AutoInc bool     // the (single) key is an auto-increment integer
+	// RecKeys (composite configurations): the key of record i, one value per
+	// key field; Neighbours: rows that are stored before every case (key
+	// columns + a marker only). Together every proper subset of the key values
+	// of each record is shared by a neighbour that sorts before it, so that a
+	// read keyed by only part of the key returns another row.
+	RecKeys    [][]interface{}
+	Neighbours [][]interface{}
 	// ExtraCols: further columns the configuration brings (foreign key column)
 	ExtraCols []string
 	// Relation: the configuration contains a belongs-to relation to Owner; such
@@ -267,7 +291,24 @@ var Keys = []KeyConf{
 	{Name: "nonid", Fields: []reflect.StructField{sf("Num", tInt64, "primaryKey")}, Cols: []string{"num"}, AutoInc: true},
 }
 
+// CompositeKeys: composite primary keys over int and string (2 and 3
+// columns) with neighbour rows. Enumerated by C03 in addition to Keys.
+var CompositeKeys = []KeyConf{
+	{Name: "composite_int_string", Fields: []reflect.StructField{sf("Tenant", tInt, "primaryKey"), sf("Code", tString, "primaryKey")}, Cols: []string{"tenant", "code"},
+		RecKeys:    [][]interface{}{{5, "m"}, {6, "m"}, {5, "n"}},
+		Neighbours: [][]interface{}{{1, "m"}, {1, "n"}, {5, "a"}, {6, "a"}}},
+	{Name: "composite_int_string_int64", Fields: []reflect.StructField{sf("Tenant", tInt, "primaryKey"), sf("Code", tString, "primaryKey"), sf("Seq", tInt64, "primaryKey")}, Cols: []string{"tenant", "code", "seq"},
+		RecKeys: [][]interface{}{{5, "m", int64(7)}, {6, "m", int64(7)}, {5, "n", int64(8)}},
+		Neighbours: [][]interface{}{{1, "m", int64(7)}, {1, "n", int64(8)}, {5, "a", int64(7)}, {5, "a", int64(8)}, {6, "a", int64(7)},
+			{5, "m", int64(1)}, {6, "m", int64(1)}, {5, "n", int64(1)}, {1, "a", int64(7)}, {1, "a", int64(8)}, {5, "a", int64(1)}, {6, "a", int64(1)}, {1, "m", int64(1)}, {1, "n", int64(1)}}},
+}
+
 func KeyByName(n string) *KeyConf {
+	for i := range CompositeKeys {
+		if CompositeKeys[i].Name == n {
+			return &CompositeKeys[i]
+		}
+	}
 	for i := range Keys {
 		if Keys[i].Name == n {
 			return &Keys[i]
@@ -645,6 +686,12 @@ func buildSpecs() []*Spec {
 			func(s *Spec) { s.DefaultCols = []string{"home_ea0", "work_ea0"} }),
 	}
 	add(tw)
+
+	// anonymously embedded struct whose column is shadowed by an outer field
+	// declared after it (the hidden inner field stays empty: it has no column)
+	add(&Spec{Name: "embedded_anonymous_shadowed", Types: same(reflect.TypeOf(ShadowDoc{})), TagTmpl: "embedded;embeddedPrefix:sh%d_", ColTmpl: []string{"sh%d_name", "sh%d_note"},
+		Values: []Val{v("zero", ShadowDoc{}), v("outer", ShadowDoc{Name: "outer'n"}), v("both", ShadowDoc{ShadowBase: ShadowBase{Note: "c1"}, Name: "o2"}), v("note-only", ShadowDoc{ShadowBase: ShadowBase{Note: "c2"}})},
+		Cells:  shadowCell, MapRaw: true})
 
 	// --- fields excluded from the table -------------------------------------
 	for _, x := range [][2]string{{"ignored_migration", "->;-:migration"}, {"ignored_dash", "-"}, {"ignored_all", "-:all"}} {
